@@ -10,6 +10,13 @@
 //	    freshly parsed pair of SRs and a freshly built transformer. Result: one item per hop,
 //	    "ok <xhex> <yhex>" | "same <xhex> <yhex>" (NewTransform returned nil: identical SRs) |
 //	    "err <text>" | "panic <text>", separated by " ; ". The chain stops at the first failure.
+//	trd<k> | ...   like tr, but every parsed SR gets k extra (*SR).DeriveConstants() calls before the
+//	    transformer is built (the exported way to finish an SR; idempotent on a finished SR); the
+//	    exported fields are dumped after every extra call and must equal the first dump, else the
+//	    hop's item is "changed <field>:<before>-><after>".
+//	trp<k> | ...   like tr, but every definition is parsed k more times in the same process after the
+//	    first parse and the FIRST parsed SRs are used (a table entry aliased by an SR would be
+//	    converted again by the later parses).
 //	parse | <def>
 //	    proj.Parse; result "ok A B Rf Es FromGreenwich ToMeter n p1 .. pn" (hex) | "err <text>"
 //
@@ -446,6 +453,35 @@ func corpus(w *bufio.Writer) {
 	put(trLine([]string{"+proj=longlat +ellps=bessel +towgs84=598.1,73.7,418.2", "+proj=tmerc +lat_0=0 +lon_0=9 +k=1 +x_0=3500000 +y_0=0 +ellps=bessel +towgs84=598.1,73.7,418.2 +units=m", "+proj=tmerc +lat_0=0 +lon_0=9 +k=1 +x_0=3500000 +y_0=0 +ellps=bessel +towgs84=653,-212,449 +units=m", "+proj=longlat +ellps=bessel +towgs84=653,-212,449"}, 9.5, 50))
 	put(trLine([]string{"+proj=longlat +datum=potsdam", "+proj=longlat +ellps=bessel +towgs84=607.0,23.0,413.0"}, 9.5, 50))
 	put(trLine([]string{"+proj=longlat +a=6377397.155 +b=6356078.963 +towgs84=598.1,73.7,418.2", "+proj=longlat +a=6377398.155 +b=6356078.963 +towgs84=598.1,73.7,418.2"}, 9.5, 50))
+	// the antimeridian edge: the EPSG:3857 extent inverts to +-180 on its own side, and lon_0 +- 180 projects to its own edge
+	m3857 := "+proj=merc +a=6378137 +b=6378137 +lat_ts=0.0 +lon_0=0.0 +x_0=0.0 +y_0=0 +k=1.0 +units=m +nadgrids=@null +no_defs"
+	s3857 := "+proj=longlat +a=6378137 +b=6378137 +nadgrids=@null"
+	for _, x := range []float64{20037508.342789244, -20037508.342789244, math.Nextafter(20037508.342789244, 1e9), math.Nextafter(-20037508.342789244, -1e9), 20037508.34, -20037508.34} {
+		for _, y := range []float64{0, 20037508.342789244, -1118889.9748579583} {
+			put(trLine([]string{m3857, s3857}, x, y))
+		}
+	}
+	for _, l := range []float64{180, -180, math.Nextafter(180, 0), math.Nextafter(-180, 0)} {
+		put(trLine([]string{s3857, m3857}, l, 10))
+	}
+	for _, l0 := range []int{8, -8, 100, -30, 170} {
+		md := "+proj=merc +lon_0=" + strconv.Itoa(l0) + " +a=6378137 +b=6378137"
+		for _, l := range []float64{float64(l0) - 180, float64(l0) + 180} {
+			if l >= -180 && l <= 180 {
+				put(trLine([]string{"+proj=longlat +a=6378137 +b=6378137", md}, l, 10))
+				put(trLine([]string{"+proj=longlat +ellps=GRS80", "+proj=lcc +lat_1=40 +lat_2=50 +lat_0=45 +lon_0=" + strconv.Itoa(l0) + " +x_0=0 +y_0=0 +ellps=GRS80"}, l, 45))
+			}
+		}
+	}
+	// histories on one line: extra DeriveConstants calls / repeated parses, 7-term shifts explicit and named
+	k7 := "+proj=longlat +ellps=bessel +towgs84=570.8,85.7,462.8,4.998,1.587,5.261,3.56"
+	put("trd1" + trLine([]string{k7, wgs}, 14.4, 50.1)[2:])
+	put("trd2" + trLine([]string{wgs, "+proj=krovak +lat_0=49.5 +lon_0=24.83333333333333 +k=0.9999 +ellps=bessel +towgs84=570.8,85.7,462.8,4.998,1.587,5.261,3.56", k7}, 14.4, 50.1)[2:])
+	put("trd2" + trLine([]string{"+proj=longlat +datum=potsdam", "+proj=utm +zone=32 +datum=potsdam", wgs}, 9.5, 50)[2:])
+	for _, d := range []string{"nzgd49", "osgb36", "ire65", "rnb72"} {
+		put("trp3" + trLine([]string{"+proj=longlat +datum=" + d, wgs, "+proj=longlat +datum=" + d}, 5, 50)[2:])
+		put("trd2" + trLine([]string{"+proj=longlat +datum=" + d, wgs}, 5, 50)[2:])
+	}
 	// units
 	put(trLine([]string{wgs, "+proj=lcc +lat_1=34.03333333333333 +lat_2=35.46666666666667 +lat_0=33.5 +lon_0=-118 +x_0=2000000.0001016 +y_0=500000.0001016001 +datum=NAD83 +units=us-ft +no_defs", "+proj=aea +lat_1=29.5 +lat_2=45.5 +lat_0=23 +lon_0=-96 +x_0=0 +y_0=0 +datum=NAD83 +units=ft", wgs}, -117.5, 34.2))
 	// datum-less against a geographic system on the same ellipsoid
@@ -482,6 +518,60 @@ func corpus(w *bufio.Writer) {
 	put("parse | +proj=longlat +datum=WGS84 +from_greenwich=2.5")
 }
 
+func lonOf(def string) (float64, bool) {
+	for _, f := range strings.Fields(def) {
+		if strings.HasPrefix(f, "+lon_0=") {
+			v, err := strconv.ParseFloat(f[7:], 64)
+			return v, err == nil
+		}
+	}
+	return 0, false
+}
+
+func dropTok(def, prefix string) string {
+	var out []string
+	for _, f := range strings.Fields(def) {
+		if !strings.HasPrefix(f, prefix) {
+			out = append(out, f)
+		}
+	}
+	return strings.Join(out, " ")
+}
+
+// edges emits single hops geographic -> projected at the antimeridian of the projection: longitude
+// exactly lon_0 ± 180 and one ulp either side (proj4js keeps such a point on its side because its
+// SPI is slightly larger than π). One ellipsoid, no datum, no prime meridian: the longitude reaches
+// adjust_lon through multiplications and one subtraction only, so every implementation gets the same bits.
+func edges(w *bufio.Writer, r *vproto.Rng, n int) {
+	kinds := []string{"merc", "merc", "lcc", "aea", "eqdc"}
+	for i := 0; i < n; i++ {
+		f := frame{nodatum: true, ellps: ellpsClause(r)}
+		latG := (r.Float() - 0.5) * 120
+		if math.Abs(latG) < 5 {
+			latG = 20
+		}
+		kind := kinds[r.Intn(len(kinds))]
+		def := dropTok(genSR(r, kind, f, (r.Float()-0.5)*300, latG), "+pm=")
+		if i%3 == 0 { // round central meridians too
+			def = dropTok(def, "+lon_0=") + " +lon_0=" + strconv.Itoa(r.Range(-17, 17)*10)
+		}
+		l0, ok := lonOf(def)
+		if !ok {
+			continue
+		}
+		lon := l0 - 180
+		if l0 <= 0 {
+			lon = l0 + 180
+		}
+		src := strings.TrimSpace("+proj=longlat " + f.ellps)
+		for _, x := range []float64{lon, math.Nextafter(lon, 1000), math.Nextafter(lon, -1000)} {
+			if x >= -180 && x <= 180 {
+				fmt.Fprintln(w, trLine([]string{src, def}, x, latG))
+			}
+		}
+	}
+}
+
 func gen(seed uint64, tier string) {
 	w := bufio.NewWriterSize(os.Stdout, 1<<20)
 	defer w.Flush()
@@ -491,6 +581,7 @@ func gen(seed uint64, tier string) {
 	if tier == "thorough" {
 		n = 30000
 	}
+	edges(w, r, n/15)
 	for i := 0; i < n; i++ {
 		// the geographic point (degrees from Greenwich)
 		var lonG, latG float64
@@ -557,7 +648,16 @@ func gen(seed uint64, tier string) {
 			}
 		}
 		x := wrap180(lonG - pmOf(g0))
-		fmt.Fprintln(w, trLine(defs, x, latG))
+		line := trLine(defs, x, latG)
+		// history flavours (one line = one history): extra DeriveConstants calls on the finished SRs,
+		// repeated parses of the same text before the first SRs are used
+		switch i % 8 {
+		case 1:
+			line = "trd" + strconv.Itoa(1+r.Intn(2)) + line[2:]
+		case 5:
+			line = "trp" + strconv.Itoa(2+r.Intn(2)) + line[2:]
+		}
+		fmt.Fprintln(w, line)
 		if i%10 == 0 {
 			fmt.Fprintln(w, "parse | "+defs[len(defs)/2])
 		}
@@ -583,7 +683,38 @@ func errText(e interface{}) string {
 	return s
 }
 
-func implTr(fields []string) string {
+func dumpSR(sr *proj.SR, withParams bool) []string {
+	out := []string{"A:" + vproto.F2H(sr.A), "B:" + vproto.F2H(sr.B), "Rf:" + vproto.F2H(sr.Rf), "Es:" + vproto.F2H(sr.Es),
+		"FromGreenwich:" + vproto.F2H(sr.FromGreenwich), "ToMeter:" + vproto.F2H(sr.ToMeter)}
+	if withParams {
+		ps := fmt.Sprintf("DatumParams:%d", len(sr.DatumParams))
+		for _, v := range sr.DatumParams {
+			ps += "," + vproto.F2H(v)
+		}
+		out = append(out, ps)
+	}
+	return out
+}
+
+// rederive calls DeriveConstants k more times and reports the first exported field that changes.
+// DatumParams of a definition with +datum= are left out: DeriveConstants re-copies them from the
+// table (unconverted) while the datum keeps the converted slice, on the unchanged tree as well.
+func rederive(sr *proj.SR, def string, k int) string {
+	withParams := !strings.Contains(def, "+datum=")
+	d0 := dumpSR(sr, withParams)
+	for j := 0; j < k; j++ {
+		sr.DeriveConstants()
+		d := dumpSR(sr, withParams)
+		for i := range d0 {
+			if d[i] != d0[i] {
+				return "changed " + d0[i] + "->" + d[i][strings.Index(d[i], ":")+1:]
+			}
+		}
+	}
+	return ""
+}
+
+func implTr(fields []string, extraDerive, extraParse int) string {
 	defs := fields[1 : len(fields)-1]
 	xy := strings.Fields(fields[len(fields)-1])
 	if len(xy) != 2 || len(defs) < 2 {
@@ -609,6 +740,26 @@ func implTr(fields []string) string {
 			if err != nil {
 				item, stop = "err parse-dst:"+errText(err), true
 				return
+			}
+			for j := 0; j < extraParse; j++ { // later parses of the same text; the first SRs are used
+				if _, err := proj.Parse(defs[i]); err != nil {
+					item, stop = "err reparse:"+errText(err), true
+					return
+				}
+				if _, err := proj.Parse(defs[i+1]); err != nil {
+					item, stop = "err reparse:"+errText(err), true
+					return
+				}
+			}
+			if extraDerive > 0 {
+				if c := rederive(src, defs[i], extraDerive); c != "" {
+					item, stop = c, true
+					return
+				}
+				if c := rederive(dst, defs[i+1], extraDerive); c != "" {
+					item, stop = c, true
+					return
+				}
 			}
 			t, err := src.NewTransform(dst)
 			if err != nil {
@@ -670,9 +821,30 @@ func impl() {
 			fields[i] = strings.TrimSpace(fields[i])
 		}
 		var res string
+		switch {
+		case fields[0] == "tr":
+			res = implTr(fields, 0, 0)
+		case strings.HasPrefix(fields[0], "trd") || strings.HasPrefix(fields[0], "trp"):
+			k, err := strconv.Atoi(fields[0][3:])
+			if err != nil || k < 1 || k > 9 {
+				res = "badline"
+			} else if fields[0][2] == 'd' {
+				res = implTr(fields, k, 0)
+			} else {
+				res = implTr(fields, 0, k)
+			}
+		default:
+			res = implOther(fields)
+		}
+		fmt.Fprintln(out, line+" => "+res)
+		out.Flush()
+	})
+}
+
+func implOther(fields []string) string {
+	var res string
+	{
 		switch fields[0] {
-		case "tr":
-			res = implTr(fields)
 		case "parse":
 			if len(fields) == 2 {
 				res = implParse(fields[1])
@@ -682,9 +854,8 @@ func impl() {
 		default:
 			res = "badline"
 		}
-		fmt.Fprintln(out, line+" => "+res)
-		out.Flush()
-	})
+	}
+	return res
 }
 
 func main() {
